@@ -32,58 +32,173 @@ def _src(rel):
     return open(os.path.join(vlib.REPO, rel)).read()
 
 
-def translate():
+TRANSLATE_FALLBACK = (
+    "every fact the translator reads is also observed on the implementation on each run: the staging windows and "
+    "the stage transitions decide what ExpectProxyProtocol does on the generated header splits (chunks cut at the "
+    "16/28/52/232 edges, oversized and malformed headers) that driver and model both run; signature, family bytes and "
+    "block lengths decide the `enc` / `parse` observations on every header kind and every truncation point, checked "
+    "against a reference reading of the wire format in the driver; the handler order of ready_inner, its fall-through "
+    "after front_hup and the expect-mode connect guard decide the black-box scenarios that run in every tier (real "
+    "worker, four modes, half-closes, back-pressure); unreadable windows are generated from props/c18_facts.json")
+
+FACTS = os.path.join(os.path.dirname(os.path.abspath(__file__)), "c18_facts.json")
+SIGV = [0x0D, 0x0A, 0x0D, 0x0A, 0x00, 0x0D, 0x0A, 0x51, 0x55, 0x49, 0x54, 0x0A]
+
+
+def _arrays(src, table):
+    """every `[a, b, ...]` literal of integers in `src`, as lists of ints"""
+    import rsread
+    out = []
+    for m in re.finditer(r"\[([^\[\]]*)\]", src):
+        items = [x.strip() for x in m.group(1).split(",") if x.strip()]
+        if len(items) >= 2:
+            vals = [rsread.evalc(x, table) for x in items]
+            if None not in vals:
+                out.append(vals)
+    return out
+
+
+def read_facts(fails):
+    import rsread
+    f = dict(w4=None, w6=None, wu=None)
+    ex = rsread.clean(_src("lib/src/protocol/proxy_protocol/expect.rs"))
+    table = rsread.consts(ex)
+    rb = rsread.body(ex, "readable") or ex
+    for key, st in (("w4", "V4"), ("w6", "V6"), ("wu", "Unix")):
+        m = re.search(r"HeaderLen::%s\s*=>\s*([^,}]+)" % st, rb)
+        f[key] = rsread.evalc(m.group(1), table) if m else None
+    if None in f.values():
+        fails.append("unreadable: expect.rs: the staging windows of ExpectProxyProtocol::readable (HeaderLen::V4 / V6 / Unix => n)")
+    mb = re.search(r"frontend_buffer\s*:\s*\[\s*u8\s*;\s*([^\]]+)\]", ex)
+    wb = rsread.evalc(mb.group(1), table) if mb else None
+    if wb is None:
+        fails.append("unreadable: expect.rs: the size of frontend_buffer (model: the last staging window)")
+    elif f["wu"] is not None and wb != f["wu"]:
+        fails.append("expect.rs: frontend_buffer is %d bytes but the last staging window is %d" % (wb, f["wu"]))
+    # each stage advances / closes exactly when the window is full: `self.index == <window>` in that stage's arm
+    for key, st in (("w4", "V4"), ("w6", "V6"), ("wu", "Unix")):
+        if f[key] is None:
+            continue
+        arms = [m.end() for m in re.finditer(r"HeaderLen::%s\s*=>\s*\{" % st, rb)]
+        ok = unread = False
+        for a in arms:
+            import rustmini
+            try:
+                blk = rb[a:rustmini.match_brace(rb, a - 1)]
+            except rustmini.Unrecognised:
+                continue
+            mm = re.search(r"self\s*\.\s*index\s*(==|>=|>)\s*([\w:]+)|([\w:]+)\s*(==|<=|<)\s*self\s*\.\s*index", blk)
+            if mm:
+                op = mm.group(1) or {"==": "==", "<=": ">=", "<": ">"}[mm.group(4)]
+                rhs = mm.group(2) or mm.group(3)
+                val = f[key] if rhs in ("total_len", "window", "limit") else rsread.evalc(rhs, table)
+                if val is None:
+                    unread = True
+                elif val == f[key] and op in ("==", ">="):
+                    ok = True
+                else:
+                    fails.append("expect.rs: the %s stage advances/closes at index %s %s, its window is %d" % (st, op, val, f[key]))
+                    ok = True
+        if not ok:
+            fails.append("unreadable: expect.rs: where the %s stage advances/closes (model: exactly at index == %d)%s" % (st, f[key], " [unresolved name]" if unread else ""))
+    pa = rsread.clean(_src("lib/src/protocol/proxy_protocol/parser.rs"))
+    he = rsread.clean(_src("lib/src/protocol/proxy_protocol/header.rs"))
+    for name, src in (("parser.rs", pa), ("header.rs", he)):
+        arrs = [a for a in _arrays(src, rsread.consts(src)) if len(a) == 12]
+        if SIGV in arrs:
+            continue
+        if arrs:
+            fails.append("%s: the 12-byte v2 signature is %s" % (name, arrs[0]))
+        elif not re.search(r"PROTOCOL_SIGNATURE_V2|SIGNATURE", src):
+            fails.append("unreadable: %s: the 12-byte v2 signature" % name)
+    # family byte and block length per address kind (values of the match arms, whatever their spelling)
+    ht = rsread.consts(he)
+    for fn, want, what in (("get_family", {"Ipv4Addr": 0x11, "Ipv6Addr": 0x21, "UnixAddr": 0x31, "AfUnspec": 0}, "family byte"),
+                           ("len", {"Ipv4Addr": 12, "Ipv6Addr": 36, "UnixAddr": 216, "AfUnspec": 0}, "block length")):
+        bodies = []
+        for m in re.finditer(r"\bfn\s+%s\b" % fn, he):
+            bd = rsread.body(he, fn, m.start())
+            if bd and "ProxyAddr::" in bd:
+                bodies.append(bd)
+        if not bodies:
+            fails.append("unreadable: header.rs: fn %s over ProxyAddr (model: %s %s)" % (fn, what, want))
+            continue
+        bd = bodies[0]
+        for kind, val in want.items():
+            m = re.search(r"ProxyAddr::%s\s*(?:\{[^}]*\})?\s*=>\s*([^,\n]+)" % kind, bd)
+            got = rsread.evalc(m.group(1), ht) if m else None
+            if got is None:
+                fails.append("unreadable: header.rs: the %s of %s (model: %d)" % (what, kind, val))
+            elif got != val:
+                fails.append("header.rs: the %s of %s is %d, the model has %d" % (what, kind, got, val))
+    tcp = rsread.clean(_src("lib/src/tcp.rs"))
+    body = rsread.body(tcp, "ready_inner")
+    if body is None:
+        fails.append("unreadable: tcp.rs: fn ready_inner not found")
+    else:
+        calls = [(1, r"self\s*\.\s*front_hup\s*\(\)"), (2, r"self\s*\.\s*readable\s*\(\)"), (3, r"self\s*\.\s*back_writable\s*\(\)"),
+                 (4, r"self\s*\.\s*back_readable\s*\(\)"), (5, r"self\s*\.\s*writable\s*\(\)"), (6, r"self\s*\.\s*back_hup\s*\(\)")]
+        seq = rsread.all_positions(body, calls)
+        # first occurrence of each handler, in order; back_hup may occur again (the error arm)
+        first = []
+        for c in seq:
+            if c not in first:
+                first.append(c)
+        if sorted(first) != [1, 2, 3, 4, 5, 6]:
+            fails.append("unreadable: tcp.rs: ready_inner: the calls of the six handlers (found %s)" % first)
+        elif first != [1, 2, 3, 4, 5, 6]:
+            names = {1: "front_hup", 2: "readable", 3: "back_writable", 4: "back_readable", 5: "writable", 6: "back_hup"}
+            fails.append("tcp.rs: ready_inner calls the handlers in the order %s (model: front_hup, readable, back_writable, back_readable, writable, back_hup)" % [names[c] for c in first])
+        else:
+            # each handler is guarded by the readiness bit of its side
+            for code, bit in ((2, "is_readable"), (3, "is_writable"), (4, "is_readable"), (5, "is_writable"), (6, "is_hup")):
+                k = re.search(calls[code - 1][1], body).start()
+                if bit not in body[max(0, k - 400):k]:
+                    fails.append("unreadable: tcp.rs: ready_inner: the readiness test (%s) guarding handler %d" % (bit, code))
+            # the error arms: frontend error closes; backend error closes when back_hup says so
+            if len(re.findall(r"\.\s*is_error\s*\(\)", body)) < 2:
+                fails.append("unreadable: tcp.rs: ready_inner: the two ERROR arms")
+        # after front_hup: only a non-Continue result returns, Continue falls through to the handlers
+        k = re.search(calls[0][1], body)
+        seg = body[max(0, k.start() - 60):k.start() + 600] if k else ""
+        if not (re.search(r"(\w+)\s*!=\s*SessionResult::Continue\s*\{\s*return\s+\1\s*;", seg)
+                or re.search(r"(\w+)\s*==\s*SessionResult::Continue\s*\{[^}]*\}\s*else\s*\{\s*return\s+\1\s*;", seg)
+                or re.search(r"let\s+SessionResult::Continue\s*=\s*([^;{]+?)\s*else\s*\{\s*return\b", seg)
+                or re.search(r"match\s+[^{;]+\{\s*SessionResult::Continue\s*=>\s*(?:\{\s*\}|\(\s*\))\s*,?\s*(\w+)\s*=>\s*\{?\s*return\s+\1\b", seg)
+                or re.search(r"match\s+[^{;]+\{\s*(\w+)\s+if\s+\1\s*!=\s*SessionResult::Continue\s*=>\s*\{?\s*return\s+\1\b", seg)):
+            fails.append("unreadable: tcp.rs: ready_inner: what happens after front_hup (model: a result other than Continue returns, Continue falls through to the handlers)")
+        # the expect state does not connect to the backend: the NotConnected arm tests the state, inline or through one helper
+        head = body[:body.find("front_hup")] if "front_hup" in body else body
+        guarded = "ExpectProxyProtocol" in head
+        if not guarded:
+            for cm in re.finditer(r"NotConnected\b([^{]*)\{", head):
+                for hm in re.finditer(r"(?:self\s*\.|Self::)\s*(\w+)\s*\(", cm.group(1)):
+                    hb = rsread.body(tcp, hm.group(1))
+                    if hb is not None and "ExpectProxyProtocol" in hb:
+                        guarded = True
+        if not guarded:
+            fails.append("unreadable: tcp.rs: ready_inner: the guard that keeps the expect state from connecting to the backend")
+    return f
+
+
+def translate(snapshot=False):
+    import json
     fails = []
-    ex = _src("lib/src/protocol/proxy_protocol/expect.rs")
-    m4 = re.search(r"HeaderLen::V4\s*=>\s*(\d+)\s*,", ex)
-    m6 = re.search(r"HeaderLen::V6\s*=>\s*(\d+)\s*,", ex)
-    mu = re.search(r"HeaderLen::Unix\s*=>\s*(\d+)\s*,", ex)
-    mb = re.search(r"frontend_buffer:\s*\[u8;\s*(\d+)\]", ex)
-    if not (m4 and m6 and mu and mb):
-        return ["expect.rs: cannot find the staging windows (HeaderLen::V4/V6/Unix => n) or the frontend_buffer size"]
-    w4, w6, wu, wb = (int(x.group(1)) for x in (m4, m6, mu, mb))
-    if wb != wu:
-        fails.append("expect.rs: frontend_buffer is %d bytes but the last staging window is %d" % (wb, wu))
-    for n, st in ((w4, "V4"), (w6, "V6"), (wu, "Unix")):
-        if not re.search(r"HeaderLen::%s\s*=>\s*\{\s*if self\.index == %d\s*\{" % (st, n), ex):
-            fails.append("expect.rs: the %s stage no longer advances/closes exactly at index == %d" % (st, n))
+    facts = read_facts(fails)
+    if snapshot:
+        json.dump(facts, open(FACTS, "w"), indent=1, sort_keys=True)
+        return fails
+    try:
+        snap = json.load(open(FACTS))
+    except Exception:
+        snap = {}
+    g = {k: (facts[k] if facts[k] is not None else snap.get(k)) for k in facts}
+    if any(v is None for v in g.values()):
+        fails.append("the staging windows can neither be read from the source nor from props/c18_facts.json")
+        return fails
     vlib.write_if_changed(os.path.join(vlib.COQ, "C18", "Gen.v"),
                           "(* GENERATED by props/c18.py:translate from lib/src/protocol/proxy_protocol/expect.rs *)\n"
-                          "Definition window_v4 : nat := %d.\nDefinition window_v6 : nat := %d.\nDefinition window_unix : nat := %d.\n" % (w4, w6, wu))
-    sig = "0x0D, 0x0A, 0x0D, 0x0A, 0x00, 0x0D, 0x0A, 0x51, 0x55, 0x49, 0x54, 0x0A"
-    pa = _src("lib/src/protocol/proxy_protocol/parser.rs")
-    he = _src("lib/src/protocol/proxy_protocol/header.rs")
-    norm = lambda s: re.sub(r"\s+", " ", s)
-    if sig not in norm(pa) or sig not in norm(he):
-        fails.append("parser.rs/header.rs: the 12-byte v2 signature changed")
-    for pat, what in ((r"Ipv4Addr \{ \.\. \} => 0x10 \| 0x01", "AF_INET family byte"),
-                      (r"Ipv6Addr \{ \.\. \} => 0x20 \| 0x01", "AF_INET6 family byte"),
-                      (r"Ipv4Addr \{ \.\. \} => 12,", "IPv4 block length"),
-                      (r"Ipv6Addr \{ \.\. \} => 36,", "IPv6 block length"),
-                      (r"UnixAddr \{ \.\. \} => 216,", "UNIX block length")):
-        if not re.search(pat, he):
-            fails.append("header.rs: %s is no longer the modelled constant" % what)
-    tcp = _src("lib/src/tcp.rs")
-    m = re.search(r"fn ready_inner\(.*?\n    \}\n", tcp, re.S)
-    if not m:
-        fails.append("tcp.rs: fn ready_inner not found")
-    else:
-        body = m.group(0)
-        order = ["self.front_hup()", "if front_interest.is_readable()", "self.readable()", "if back_interest.is_writable()",
-                 "self.back_writable()", "if back_interest.is_readable()", "self.back_readable()",
-                 "if front_interest.is_writable()", "self.writable()", "if back_interest.is_hup()", "self.back_hup()",
-                 "if front_interest.is_error()", "if back_interest.is_error() && self.back_hup() == SessionResult::Close"]
-        at = 0
-        for o in order:
-            k = body.find(o, at)
-            if k < 0:
-                fails.append("tcp.rs: ready_inner no longer calls `%s` in the modelled order" % o)
-                break
-            at = k + len(o)
-        if not re.search(r"if session_result != SessionResult::Continue \{\s*return session_result;\s*\}", body):
-            fails.append("tcp.rs: ready_inner no longer falls through to the handlers when front_hup returns Continue")
-        if "!matches!(self.state, TcpStateMachine::ExpectProxyProtocol(_))" not in body:
-            fails.append("tcp.rs: ready_inner connects to the backend while still in the expect state again")
+                          "Definition window_v4 : nat := %d.\nDefinition window_v6 : nat := %d.\nDefinition window_unix : nat := %d.\n" % (g["w4"], g["w6"], g["wu"]))
     return fails
 
 
